@@ -2516,7 +2516,7 @@ def run(ctx):
     normalize_stream(ctx, I, ctx.scale(500, 8000))
     ctx.log("normalize stream done")
     linearity_stream(ctx, I, ctx.scale(300, 4000))
-    rules_stream(ctx, I, ctx.scale(80, 1400))
+    rules_stream(ctx, I, ctx.scale(80, 900))
     ctx.log("generated rule applications done")
     files = typed_example_files(ctx.repo)
     if os.environ.get("C19_REGEN_REPLAYABLE"):
